@@ -430,7 +430,7 @@ def deliver (cfg : Cfg) (s : St) (p : Piece) : St :=
     if !s.headDone then
       if !p.headDone then s
       else
-        let s := { s with headDone := true, buffered := s.buffered + p.bodyBytes, eof := p.eof }
+        let s := { s with headDone := true, buffered := s.buffered + p.bodyBytes, eof := s.eof || p.eof }
         let s := if p.eof then dropRead s else pauseCheck cfg s
         if s.pc = .headers ∧ s.wake = none then { s with wake := some .result } else s
     else
